@@ -1,6 +1,6 @@
 """C17 - stream I/O failures surface as errors and leave no residue."""
 from ..engine import analyze_fn, norm
-from ..streamrules import (rule_error_discipline, rule_io_protocol, rule_cache_protocol, stream_fns, wh)
+from ..streamrules import (rule_error_discipline, rule_io_protocol, rule_cache_protocol, stream_fns, wh, io_home)
 from ..terms import T, pp
 
 REQUIRES = ("std",)
@@ -49,20 +49,36 @@ def run(ctx, rep):
     rep.ok("no-residue", "stores through self in elf_stream", "src/elf_stream.rs",
            "no accessor writes ehdr/shdrs/phdrs/stream_len/bufs through self (%d field stores inspected); the cache is written only via "
            "load_bytes/clear_cache (rule cache-writers)" % n)
-    # stream_len is set once, from seek(End(0)), in new()
+    # stream_len is set once, from seek(End(0)), in new() (possibly through a private helper that only new() calls)
     fn = F.fn("elf_stream::CachingReader::new")
     if fn is not None:
         an = analyze_fn(F, fn)
         good = False
+        END0 = T.agg("adt", "io::SeekFrom", 1, "End", [T.const("i64", 0)])
+
+        def is_measured(an_, v, depth=0):
+            """v is the Ok payload of a seek(End(0)) performed in an_'s function, or of a helper (allowed to do I/O) that returns exactly that"""
+            if not (v.op == "payload" and v.args[1] == "Ok"):
+                return False
+            src = v.args[0]
+            seeks = [c for c in an_.calls() if c.declared_norm == "io::Seek::seek"]
+            if len(seeks) == 1 and src is seeks[0].result and seeks[0].args[1] is END0:
+                return True
+            cs = an_.call_site_of(src)
+            from ..engine import program
+            lf = program(F).local_fn(cs.callee) if cs is not None else None
+            if lf is None or depth > 2 or lf["qual"] not in io_home(F):
+                return False
+            sub = analyze_fn(F, lf)
+            oks = [t for t, st in sub.ret_leaves() or [] if not (t.op == "agg" and t.args[3] == "Err")]
+            return bool(oks) and all(is_measured(sub, T.payload(t, "Ok"), depth + 1) or
+                                     (t.op == "call" and t.args[0] == "io::Seek::seek" and is_measured(sub, T.payload(t, "Ok"), depth + 1)) for t in oks)
         for t, st in an.ret_leaves() or []:
             if t.op == "agg" and t.args[3] == "Ok":
                 cr = t.args[4][0]
                 if cr.op == "agg":
                     fields = dict(zip([f["name"] for f in F.adts["elf_stream::CachingReader"]["variants"][0]["fields"]], cr.args[4]))
-                    sl = fields.get("stream_len")
-                    seek = [c for c in an.calls() if c.declared_norm == "io::Seek::seek"]
-                    good = (len(seek) == 1 and sl is T.payload(seek[0].result, "Ok")
-                            and seek[0].args[1] is T.agg("adt", "io::SeekFrom", 1, "End", [T.const("i64", 0)]))
+                    good = is_measured(an, fields.get("stream_len"))
         rep.require(good, "no-residue", "stream_len = seek(End(0))", wh(fn["span"]), "stream length measured once while opening",
                     "CachingReader::new does not initialise stream_len from seek(SeekFrom::End(0))")
     rep.trusted_base += ["std's Read::read_exact returns Err on premature EOF and retries ErrorKind::Interrupted",
